@@ -197,26 +197,36 @@ def obj_method(ex, recv, name, args, kwargs, st):
 
 
 # ---------------------------------------------------------------------------------------------- bytes methods producing lists etc.
-def strip_model(ex, recv, args, st):
+def strip_model(ex, recv, args, st, side="both"):
+    """bytes.strip / lstrip / rstrip(chars): the maximal removal of bytes of `chars` from the chosen end(s)."""
     s = recv.z
-    if args:
+    if args and not isinstance(args[0], VNone):
         chars = z3.simplify(args[0].z)
         if not z3.is_string_value(chars):
             raise Unsupported("strip of symbolic character set")
         cs = z3_to_bytes(chars)
     else:
+        if recv.kind != "bytes":
+            raise Unsupported("str.strip() without arguments (Unicode white space is not modelled)")
         cs = b" \t\n\r\x0b\x0c"
-    ex.assumed.add("bytes.strip(chars): result is a substring data[a:b] whose first and last bytes are not in chars and the removed ends are")
+    n = z3.Length(s)
+    if not cs:
+        return type(recv)(s)
+    ex.assumed.add("bytes.strip / lstrip / rstrip(chars): result is a substring data[a:b] whose first and last bytes (at a stripped end) are not in chars and the removed ends are")
     cls = z3.Union(*[z3.Re(z3.StringVal(chr(c))) for c in cs]) if len(cs) > 1 else z3.Re(z3.StringVal(chr(cs[0])))
     r = fresh("stripped", S)
-    a = fresh("lstrip", I)
-    b = fresh("rstrip", I)
-    n = z3.Length(s)
+    a = fresh("lstrip", I) if side in ("both", "left") else z3.IntVal(0)
+    b = fresh("rstrip", I) if side in ("both", "right") else n
     st.fact(z3.And(0 <= a, a <= b, b <= n, r == z3.SubString(s, a, b - a), z3.Length(r) == b - a))
-    st.fact(z3.InRe(z3.SubString(s, 0, a), z3.Star(cls)))
-    st.fact(z3.InRe(z3.SubString(s, b, n - b), z3.Star(cls)))
-    notc = z3.Complement(cls)
-    st.fact(z3.Implies(b > a, z3.And(z3.Not(z3.InRe(z3.SubString(r, 0, 1), cls)), z3.Not(z3.InRe(z3.SubString(r, b - a - 1, 1), cls)))))
+    if side in ("both", "left"):
+        st.fact(z3.InRe(z3.SubString(s, 0, a), z3.Star(cls)))
+        st.fact(z3.Implies(b > a, z3.Not(z3.InRe(z3.SubString(r, 0, 1), cls))))
+    if side in ("both", "right"):
+        st.fact(z3.InRe(z3.SubString(s, b, n - b), z3.Star(cls)))
+        st.fact(z3.Implies(b > a, z3.Not(z3.InRe(z3.SubString(r, b - a - 1, 1), cls))))
+    if side == "left":
+        # nothing left: the whole text consisted of stripped bytes
+        st.fact(z3.Implies(a == b, z3.InRe(s, z3.Star(cls))))
     return type(recv)(r)
 
 
